@@ -21,7 +21,7 @@ import (
 
 func main() {
 	ev.MainIsolated("C10", "exploration", 40*time.Minute, func(r *ev.Run) {
-		r.Rule("(1) seeded model-checked histories over plain keys (RSA, ECDSA P-256/384/521, Ed25519), certificates and hardware certificates with raw forwards, a quarter of them with the underlying agent writing its replies in fragments; (2) fault enumeration: for scripted pilot histories, every fault kind {failure reply, garbage reply, oversized frame, truncated frame, connection closed} at every upstream request index, in both modes; (3) construction against agents that close, fail, answer garbage/oversized/truncated, and a missing socket, in both modes; (4) raw forwards of every code 0..255 x body lengths {1, 2, 64, 64 KiB} and 16 MiB / 16 MiB+1 for three codes. distinct_nontrivial = distinct histories with a hardware certificate accepted or a raw relay compared + distinct (pilot, request index, fault kind) runs + distinct raw (code, length) relays")
+		r.Rule("(1) seeded model-checked histories over plain keys (RSA, ECDSA P-256/384/521, Ed25519), certificates and hardware certificates with raw forwards, a quarter of them with the underlying agent writing its replies in fragments; (2) fault enumeration: for scripted pilot histories, every fault kind {failure reply, garbage reply, well-formed reply of the wrong message type, oversized frame, truncated frame, connection closed} at every upstream request index, in both modes; (3) construction against agents that close, fail, answer garbage/oversized/truncated, and a missing socket, in both modes; (4) raw forwards of every code 0..255 x body lengths {1, 2, 64, 64 KiB} and 16 MiB / 16 MiB+1 for three codes. distinct_nontrivial = distinct histories with a hardware certificate accepted or a raw relay compared + distinct (pilot, request index, fault kind) runs + distinct raw (code, length) relays")
 		r.Assume("a fault is a reply the x/crypto client cannot take for a success; raw forwards relay failure/garbage replies verbatim (not faults)", "after an oversized or truncated frame the scripted agent closes the connection (the stream is out of sync)")
 		gen.Pool()
 		n := r.Pick(500, 8000)
@@ -121,12 +121,16 @@ func runPilot(r *ev.Run, c *ev.Case, p *pilot, noUp bool, plan wire.Plan) (resul
 		r.Inconclusive("listen: " + err.Error())
 		return nil, nil, nil, nil, false
 	}
-	s, err = shimagent.New(shimagent.Option{Address: sock, NoUpstream: noUp})
+	inner, err := shimagent.New(shimagent.Option{Address: sock, NoUpstream: noUp})
 	if err != nil {
 		ag.Close()
 		r.Violation(c, "shim-construction-fails-without-fault", err.Error(), nil)
 		return nil, nil, nil, nil, false
 	}
+	s = &sh.Guarded{Inner: inner, OnHang: func(op string) {
+		r.Violation(c, "operation-does-not-return:"+op, "a shim operation never returned during a scripted pilot history", nil)
+		ag.Close()
+	}}
 	ag.ResetLog()
 	ag.SetPlan(plan)
 	for _, st := range p.steps {
@@ -143,7 +147,7 @@ func faults(r *ev.Run) {
 	}
 	npil := r.Pick(4, 24)
 	idx := 0
-	kinds := []int{wire.Failure, wire.Garbage, wire.Oversized, wire.Truncated, wire.Close}
+	kinds := []int{wire.Failure, wire.Garbage, wire.WrongType, wire.Oversized, wire.Truncated, wire.Close}
 	for pi := 0; pi < npil; pi++ {
 		pc := r.CaseAlways("pilot", pi)
 		p := mkPilot(pc, pi)
@@ -210,11 +214,11 @@ func faults(r *ev.Run) {
 						}
 						exempt := false
 						// a raw forward relays failure/garbage replies verbatim
-						if code == 200 && (kind == wire.Failure || kind == wire.Garbage) {
+						if code == 200 && (kind == wire.Failure || kind == wire.Garbage || kind == wire.WrongType) {
 							exempt = true
 						}
 						// an extension reply is opaque to the client: only the failure codes are errors
-						if code == 27 && kind == wire.Garbage {
+						if code == 27 && (kind == wire.Garbage || kind == wire.WrongType) {
 							exempt = true
 						}
 						// removal of a blob that is an in-memory hardware certificate: the underlying reply is ignored by design
@@ -229,7 +233,7 @@ func faults(r *ev.Run) {
 						r.Nontrivial(fmt.Sprintf("fault:%d:%s:%d:%s", pi, mode, i, wire.KindName[kind]))
 						// after the fault: with the connection intact, the first fault-free listing must still
 						// show every accepted, valid, backed hardware certificate (unless the faulted step was a removal)
-						if kind == wire.Failure || kind == wire.Garbage {
+						if kind == wire.Failure || kind == wire.Garbage || kind == wire.WrongType {
 							name := p.steps[fs].name
 							if name == "remove-all" || name[:3] == "rem" || name == "lock" || name == "unlock" {
 								return
@@ -300,7 +304,7 @@ func construction(r *ev.Run) {
 	if !r.Want("construct") {
 		return
 	}
-	kinds := []int{wire.Close, wire.Failure, wire.Garbage, wire.Oversized, wire.Truncated}
+	kinds := []int{wire.Close, wire.Failure, wire.Garbage, wire.WrongType, wire.Oversized, wire.Truncated}
 	idx := 0
 	for _, noUp := range []bool{false, true} {
 		for _, kind := range kinds {
@@ -341,11 +345,11 @@ func construction(r *ev.Run) {
 							// every later operation must fail cleanly
 							_, e1 := s.List()
 							e2 := s.Add(agent.AddedKey{PrivateKey: gen.PickKey(c.Rand).Priv})
-							if e1 == nil && kind != wire.Garbage && kind != wire.Failure {
+							if e1 == nil && kind != wire.Garbage && kind != wire.Failure && kind != wire.WrongType {
 								r.Violation(c, "operation-swallows-fault-after-construction:"+wire.KindName[kind], "", rec)
 							}
 							if e1 == nil || e2 == nil {
-								if kind == wire.Failure || kind == wire.Garbage {
+								if kind == wire.Failure || kind == wire.Garbage || kind == wire.WrongType {
 									r.Violation(c, "operation-swallows-fault-after-construction:"+wire.KindName[kind], fmt.Sprintf("list err=%v add err=%v", e1, e2), rec)
 								}
 							}
@@ -404,11 +408,15 @@ func rawBodies(r *ev.Run) {
 	ag := wire.New()
 	defer ag.Close()
 	sock, _ := ag.Listen()
-	s, err := shimagent.New(shimagent.Option{Address: sock})
+	inner, err := shimagent.New(shimagent.Option{Address: sock})
 	if err != nil {
 		r.Violation(r.CaseAlways("raw", 0), "shim-construction-fails-without-fault", err.Error(), nil)
 		return
 	}
+	s := &sh.Guarded{Inner: inner, OnHang: func(op string) {
+		r.Violation(r.CaseAlways("raw", 0), "operation-does-not-return:"+op, "a raw forward never returned (request or reply bytes lost or mis-framed)", nil)
+		ag.Close()
+	}}
 	defer s.Close()
 	idx := 0
 	one := func(code int, n int, frag bool) {
@@ -429,6 +437,9 @@ func rawBodies(r *ev.Run) {
 				ag.SetPlan(nil)
 			}
 			resp, err := s.Forward(req)
+			if s.Hung.Load() {
+				return
+			}
 			evs := ag.Events()
 			if n > 16<<20 {
 				if err == nil && (len(evs) != 1 || !bytes.Equal(evs[0].Req, req)) {
